@@ -1235,6 +1235,7 @@ def _run(ck, suds, proof_ok):
     thorough = ck.tier == "thorough"
 
     outcomes = []     # Outcome objects, one per (entry point, document) parse
+    q_planted()       # interns the names used by the planted resources
 
     def sysid_of(s):
         return WORLD.sysid[s]
